@@ -67,6 +67,49 @@ def text_pieces(t, ex=None, p=None):
     return None
 
 
+def template_pieces(tpl):
+    """Pieces of a compiled format template as the driver prints it (b"..."): [("lit", text) | ("arg",)], or None.
+    Encoding (rustc's fmt::Arguments::new templates): a byte n < 0x80 announces a literal of n bytes, 0xc0 the next argument,
+    0x00 ends the template."""
+    import ast
+    m = re.search(r'b"(?:[^"\\]|\\.)*"', tpl)
+    if not m:
+        return None
+    try:
+        bs = ast.literal_eval(m.group(0))
+    except Exception:
+        return None
+    out, i = [], 0
+    while i < len(bs):
+        b = bs[i]
+        if b == 0:
+            break
+        if b == 0xC0:
+            out.append(("arg",))
+            i += 1
+        elif b < 0x80:
+            out.append(("lit", bs[i + 1:i + 1 + b].decode("utf-8", "replace")))
+            i += 1 + b
+        else:
+            return None
+    return out
+
+
+def node_name_parts(fp):
+    """(prefix value, id value) of a node name `"<prefix><id>"` — the id may be an argument or a literal number that the
+    compiler folded into the template (`format!("\"{}{}\"", prefix, 0)`)."""
+    if fp is None:
+        return None
+    if len(fp[1]) == 2:
+        return fp[1][0], fp[1][1]
+    tp = template_pieces(fp[0]) if isinstance(fp[0], str) else None
+    if tp and len(fp[1]) == 1 and [x[0] for x in tp] == ["lit", "arg", "lit"] and tp[0][1] == '"':
+        m = re.match(r'^(\d+)"$', tp[2][1])
+        if m:
+            return fp[1][0], ("int", int(m.group(1)))
+    return None
+
+
 def _fmt_parts(t):
     for x in S.subterms(t):
         if x[0] == "app" and re.search(r"fmt::Arguments::<.*>::new::", x[1]):
@@ -116,23 +159,78 @@ def analyze(ctx, want):
     ex, paths = run_fn(rd, F, LogModel(), max_paths=5000)
     node_cases = set()
     edge_seen = 0
+    node_ranges = set()      # (lower bound, printed upper bound) of the loops that draw nodes; ("const", k) for a node drawn outside a loop
     for p in paths:
         nn = p.calls(r"Scope::<.*>::node_named")
         ed = p.calls(r"Scope::<.*>::edge::")
         sl = p.calls(r"::set_label$")
+        if len(nn) == 2 and not any(e_[0] == "call" and re.search(r"iter::Iterator>::next$", e_[2]) for e_ in p.events[:p.events.index(nn[0])]):
+            # the start state drawn before the loop and the first iteration of the loop on one path: the first node is checked on
+            # the paths that stop before the loop is entered ... or here, if there is no such path
+            i0, i1 = p.events.index(nn[0]), p.events.index(nn[1])
+            fp0 = text_pieces(argval(nn[0], 1), ex, p)
+            np0 = node_name_parts(fp0)
+            id0 = np0[1] if np0 else None
+            sl0 = [e_ for e_ in p.events[i0:i1] if e_[0] == "call" and re.search(r"::set_label$", e_[2])]
+            lab0 = ex.deref_val(p, argval(sl0[-1], 1)) if sl0 else None
+            ok0 = fp0 is not None and S.fstr(fp0[1][0]).lstrip("&*") == "node_prefix" and id0 == ("int", 0)
+            ob("C18.a", "one-node-per-state-named-prefix+id", ok0, "node_named(%s) before the loop" % ([S.fstr(v)[:30] for v in fp0[1]] if fp0 else None), rd.loc(nn[0][1]))
+            if ok0:
+                ne = [(c, o) for c, o in p.conds if c[0] == "app" and re.search(r"::is_empty$", str(c[1])) and "compiled_dfa.states" in S.fstr(c)]
+                if ne and ne[0][1] is False:
+                    node_ranges.add(("const", 0))
+                else:
+                    ob("C18.a", "start-node-drawn-iff-there-is-a-state", False, "node 0 is drawn outside the loop without a test that the automaton has a state", rd.loc(nn[0][1]))
+                node_cases.add("start")
+                ob("C18.b", "start-state-labelled-with-its-id", lab0 is not None and S.fstr(lab0).strip('&*"') in ("0",), "label %s" % (S.fstr(lab0)[:60] if lab0 else None), rd.loc())
+                blue = [e_ for e_ in p.events[i0:i1] if e_[0] == "call" and re.search(r"set_color$", e_[2]) and "Blue" in S.fstr(argval(e_, 1))]
+            nn = [nn[1]]
+            sl = [e_ for e_ in p.events[i1:] if e_[0] == "call" and re.search(r"::set_label$", e_[2])]
         if nn:
-            # one node per loop iteration, named prefix+id
-            fp = fmt_parts(argval(nn[0], 1), ex, p)
-            ok = len(nn) == 1 and fp is not None and len(fp[1]) == 2 and S.fstr(fp[1][0]).lstrip("&*") == "node_prefix" and "item@" in S.fstr(fp[1][1])
-            ob("C18.a", "one-node-per-state-named-prefix+id", ok, "node_named(%s)" % (fp[1] and [S.fstr(v)[:30] for v in fp[1]] if fp else None), rd.loc(nn[0][1]))
+            # one node per loop iteration, named prefix+id — or, for the start state taken out of the loop, prefix+0 drawn once
+            # when there is a state at all
+            fp = text_pieces(argval(nn[0], 1), ex, p)
+            npp = node_name_parts(fp)
+            if npp is not None and len(fp[1]) == 1:
+                fp = (fp[0], [npp[0], npp[1]])
             idv = fp[1][1] if fp and len(fp[1]) == 2 else None
+            peeled = idv == ("int", 0) and not any(e_[0] == "call" and re.search(r"iter::Iterator>::next$", e_[2]) for e_ in p.events[:p.events.index(nn[0])])
+            ok = len(nn) == 1 and fp is not None and len(fp[1]) == 2 and S.fstr(fp[1][0]).lstrip("&*") == "node_prefix" and ("item@" in S.fstr(fp[1][1]) or peeled)
+            ob("C18.a", "one-node-per-state-named-prefix+id", ok, "node_named(%s)" % (fp[1] and [S.fstr(v)[:30] for v in fp[1]] if fp else None), rd.loc(nn[0][1]))
+            if peeled:
+                ne = [(c, o) for c, o in p.conds if c[0] == "app" and re.search(r"::is_empty$", str(c[1])) and "compiled_dfa.states" in S.fstr(c)]
+                from .common import ordering_of
+                nz = ordering_of(p.conds, lambda x: x[0] == "app" and re.search(r"(^|::)len$", str(x[1])) is not None and "compiled_dfa.states" in S.fstr(x), lambda x: x == ("int", 0))
+                if (ne and ne[-1][1] is False) or nz == {"G"}:
+                    node_ranges.add(("const", 0))
+                else:
+                    ob("C18.a", "start-node-drawn-iff-there-is-a-state", False, "node 0 is drawn outside the loop without a test that the automaton has a state", rd.loc(nn[0][1]))
+            else:
+                for e_ in p.events:
+                    if e_[0] == "call" and re.search(r"Range<usize> as std::iter::Iterator>::next$", e_[2]) and len(e_) > 7 and idv is not None and ("item@bb%d" % e_[1]) in S.fstr(idv):
+                        v_ = e_[7][0]
+                        n_ = 0
+                        while v_[0] == "ref" and len(v_) > 3 and n_ < 4:
+                            v_ = v_[3]
+                            n_ += 1
+                        if v_[0] == "adt" and len(v_[3]) == 2:
+                            node_ranges.add((S.fstr(v_[3][0]), S.fstr(v_[3][1])))
+                for e_ in p.events:
+                    if e_[0] in ("iter-item",) and idv is not None and ("index@bb%d" % e_[1]) in S.fstr(idv):
+                        node_ranges.add(("0", "enumerate:" + S.fstr(e_[3])))
             zero = [(c, o) for c, o in p.conds if c[0] == "binop" and c[1] == "Eq" and ("int", 0) in (c[2], c[3])]
+            if peeled:
+                zero = [(("binop", "Eq", idv, ("int", 0)), True)]
+            # the label that belongs to this node: set between its creation and the next node / edge
+            i_n = p.events.index(nn[0])
+            nxt_ = [k_ for k_, e_ in enumerate(p.events) if k_ > i_n and e_[0] == "call" and re.search(r"Scope::<.*>::(node_named|edge::)", e_[2])]
+            sl = [e_ for e_ in p.events[i_n:(nxt_[0] if nxt_ else len(p.events))] if e_[0] == "call" and re.search(r"::set_label$", e_[2])]
             acc = [(c, o) for c, o in p.conds if c[0] == "field" and c[2] == "0" and "end_states" in S.fstr(c)]
             lab = fmt_parts(argval(sl[-1], 1), ex, p) if sl else None
             labv = ex.deref_val(p, argval(sl[-1], 1)) if sl else None
             if zero and zero[-1][1] is True:
                 node_cases.add("start")
-                ok = labv is not None and S.mentions(labv, lambda x: x == idv) and lab is None
+                ok = labv is not None and (S.mentions(labv, lambda x: x == idv) or (peeled and S.fstr(labv).strip('&*"') == "0")) and lab is None
                 ob("C18.b", "start-state-labelled-with-its-id", ok, "label %s" % (S.fstr(labv)[:60] if labv else None), rd.loc())
             elif acc and acc[-1][1] is True:
                 node_cases.add("accepting")
@@ -145,6 +243,7 @@ def analyze(ctx, want):
                 node_cases.add("plain")
                 ok = labv is not None and S.mentions(labv, lambda x: x == idv) and lab is None
                 ob("C18.b", "plain-state-labelled-with-its-id", ok, "label %s" % (S.fstr(labv)[:60] if labv else None), rd.loc())
+        sl = p.calls(r"::set_label$")      # (the node checks above narrowed it to the node's own label)
         if ed:
             edge_seen += 1
             e = ed[0]
@@ -174,6 +273,12 @@ def analyze(ctx, want):
                     ob("C18.b", "edge-label-present", False, "edge without a two-part label", rd.loc())
             ob("C18.b", "edge-endpoints-are-(state, target) of-the-same-transition", bool(ok), "edge(%s, %s)" % ([S.fstr(v)[:30] for v in f1[1]] if f1 else None, [S.fstr(v)[:30] for v in f2[1]] if f2 else None), rd.loc(e[1]))
     ob("C18.a", "node-cases-complete", node_cases == {"start", "accepting", "plain"}, "cases %s" % sorted(node_cases), rd.loc())
+    # every state gets its node: the node loop runs over 0..states.len() (or over the states themselves), or the start state is
+    # drawn on its own and the loop runs over 1..states.len()
+    lens = r"^(Vec::len|len)\(&?\*?compiled_dfa\.states\)$"
+    whole = any(lo == "0" and (re.match(lens, hi) or (hi.startswith("enumerate:") and "compiled_dfa.states" in hi)) for lo, hi in node_ranges if lo != "const")
+    peeled_ok = ("const", 0) in node_ranges and any(lo == "1" and re.match(lens, hi) for lo, hi in node_ranges if lo != "const")
+    ob("C18.a", "node-loop-covers-every-state", (whole and ("const", 0) not in node_ranges) or (peeled_ok and not whole), "nodes drawn for %s" % sorted(node_ranges, key=str), rd.loc())
     ob("C18.a", "every-transition-draws-an-edge", edge_seen >= 1, "%d edge paths" % edge_seen, rd.loc())
     its = [M.call_name(t) for bb, t in rd.calls(ADAPTERS)]
     ob("C18.a", "no-filter-on-states-or-transitions", not its, "iterator adapters: %s" % its, rd.loc())
